@@ -1,11 +1,13 @@
 (* C09 - operations end in bounded time with a classified error; first cause wins.
-   Proved here: classification of every exit of start_connection, of the error wrapper and of what waiters receive; the first
+   Proved here: EVERY task outcome of EVERY run is the result, an error of the library hierarchy, or - for disconnect() and
+   request/response calls only - a cancellation (C09_every_outcome_classified, by an invariant on what the call futures can
+   hold); classification of every exit of start_connection, of the error wrapper and of what waiters receive; the first
    fatal cause is kept and is what every pending waiter gets; awaits are entered with their timers armed at the documented
    bounds and virtual time cannot pass an armed deadline.  PARTIAL in one named respect: the composition
    "hence every awaited operation is complete by start + bound" is not proved as one theorem about runs; it is
    checked on the implementation (completion times under the virtual clock, deadlock detector) on every run. *)
 From Coq Require Import NArith ZArith List Bool.
-From Verif Require Import Generated.GenConstants Model.Conn Proofs.ConnCalls Proofs.ConnErrors Proofs.ConnHello.
+From Verif Require Import Generated.GenConstants Model.Conn Proofs.ConnCalls Proofs.ConnErrors Proofs.ConnHello Proofs.ConnOutcome.
 Import ListNotations.
 Open Scope Z_scope.
 
@@ -54,3 +56,52 @@ Example C09_documented_bounds :
   (RESOLVE_TIMEOUT, TCP_CONNECT_TIMEOUT, HANDSHAKE_TIMEOUT, CONNECT_REQUEST_TIMEOUT, DISCONNECT_CONNECT_TIMEOUT, DISCONNECT_RESPONSE_TIMEOUT)
   = (30 * UNITS_PER_SECOND, 60 * UNITS_PER_SECOND, 30 * UNITS_PER_SECOND, 30 * UNITS_PER_SECOND, 5 * UNITS_PER_SECOND, 10 * UNITS_PER_SECOND).
 Proof. reflexivity. Qed.
+
+(* ---------------------------------------------------------------- every outcome of every run *)
+(* OTaskDone t r is the observation "the awaited operation t ended with r" (t = start_connection, finish_connection,
+   disconnect, a request/response call).  In every run from the initial state - every interleaving of user calls, device
+   frames, faults, timers and wake-ups - r is the result, an error of the library's hierarchy, or a cancellation, and a
+   cancellation only ever ends disconnect() or a request/response call, never one of the two connect phases: no raw socket,
+   time-out, index or attribute error escapes.  (Proofs/ConnOutcome.v: the futures of the call table of a reachable state hold
+   only the result, asyncio's time-out - which the awaiter turns into TimeoutAPIError -, a library error or a cancellation.) *)
+Theorem C09_every_outcome_classified : forall n e ka scr ls c os o t r,
+  run (init n e ka scr) ls = Some (c, os) -> In o os -> In (OTaskDone t r) o ->
+  r = TOk \/ (exists l, r = TRaise (Lib l)) \/ (r = TRaise CancelledErr /\ (t = TDisc \/ exists cid, t = TCall cid)).
+Proof.
+  intros n e ka scr ls c os o t r E Ho Hr.
+  destruct (run_outcomes ls _ _ _ (F1_init n e ka scr) E) as [_ F]. rewrite Forall_forall in F.
+  destruct (F o Ho t r Hr) as [A|[A|[A B]]]; auto. right. right. split; [exact A|].
+  destruct t; try discriminate; eauto.
+Qed.
+
+Theorem C09_connect_phases_never_cancelled : forall n e ka scr ls c os o t r,
+  run (init n e ka scr) ls = Some (c, os) -> In o os -> In (OTaskDone t r) o -> t = TStart \/ t = TFinish ->
+  r = TOk \/ exists l, r = TRaise (Lib l).
+Proof.
+  intros n e ka scr ls c os o t r E Ho Hr Ht.
+  destruct (C09_every_outcome_classified n e ka scr ls c os o t r E Ho Hr) as [A|[A|[_ [B|[cid B]]]]]; auto;
+    destruct Ht; subst; discriminate.
+Qed.
+
+Theorem C09_reachable_futures_classified : forall n e ka scr ls c os k,
+  run (init n e ka scr) ls = Some (c, os) -> In k (calls c) -> forall x, c_fut k = CExc x -> x = PyTimeout \/ exists l, x = Lib l.
+Proof. exact reachable_futures_classified. Qed.
+
+(* non-vacuity: a call that times out, one that is cancelled by its caller, one that meets a reset *)
+Definition hello9 : msg := mkMsg T_HELLO_RESP true 0 1 NameEmpty false.
+Definition connect9 : list label :=
+  [LStart; LResolveDone None 1; LWake TStart; LTcpDone None; LWake TStart; LIntr true;
+   LFinish false; LMade; LMadeWaiter; LWake TFinish; LData [DFrame hello9]; LWake TFinish; LIntr false].
+Definition last_obs (ls : list label) := option_map (fun r => last (snd r) []) (run (init false false 20480 []) ls).
+Example C09_timeout_outcome :
+  last_obs (connect9 ++ [LCallStart [T_PING_REQ] [T_PING_RESP] PAny PAny 1024; LAdvance 1024; LTimer (TkCall 1); LWake (TCall 1)])
+  = Some [OTaskDone (TCall 1) (TRaise (Lib LTimeout))].
+Proof. vm_compute. reflexivity. Qed.
+Example C09_cancelled_outcome :
+  last_obs (connect9 ++ [LCallStart [T_PING_REQ] [T_PING_RESP] PAny PAny 1024; LCancel (TCall 1); LWake (TCall 1)])
+  = Some [OTaskDone (TCall 1) (TRaise CancelledErr)].
+Proof. vm_compute. reflexivity. Qed.
+Example C09_reset_outcome :
+  last_obs (connect9 ++ [LCallStart [T_PING_REQ] [T_PING_RESP] PAny PAny 1024; LLost (Some (Raw RReset)); LConnLostCb; LWake (TCall 1)])
+  = Some [OTaskDone (TCall 1) (TRaise (Lib LReadFailed))].
+Proof. vm_compute. reflexivity. Qed.
